@@ -64,6 +64,7 @@ pub static C09: CheckSpec = CheckSpec {
         Scenario { name: "query-direct", weight: 8, run: worlds::query::run_direct },
         Scenario { name: "query-pool", weight: 4, run: worlds::query::run_pool },
         Scenario { name: "service-lookup", weight: 1, run: worlds::s_nodes::run_lookup },
+        Scenario { name: "full-stack", weight: 1, run: f_c09 },
     ],
     runs_quick: 600_000,
     runs_thorough: 60_000_000,
@@ -113,6 +114,18 @@ pub static C18: CheckSpec = CheckSpec {
 const REAL_HANDLER: &[&str] = &["handler::Handler (send_request, handle_challenge, handle_auth_message, handle_message, handle_response, timeouts, pending requests, replay on re-key)", "handler::session::Session + handler::crypto (real secp256k1 ECDH, HKDF, AES-GCM)", "handler::active_requests::ActiveRequests (delay_map timers)", "lru_time_cache::LruTimeCache (session cache)", "socket::recv::RecvHandler::handle_inbound (filter, exemption lookup, Packet::decode)", "socket::send: Packet::encode", "rpc codec"];
 const STUB_HANDLER: &[&str] = &["UDP sockets and the two socket I/O select loops (replaced by equivalent loops over the harness's virtual network)", "OS clock (interposed; follows tokio's paused clock)", "OS entropy (interposed getrandom: seeded PRNG)", "the service layer above the handler (the harness plays each handler's application: answers WhoAreYou queries and requests)"];
 
+fn f_c09(ctx: &mut Ctx) {
+    worlds::fworld::run(ctx, worlds::fworld::Which { c09: true, c11: false, c13: false, c19: false });
+}
+fn f_c11(ctx: &mut Ctx) {
+    worlds::fworld::run(ctx, worlds::fworld::Which { c09: false, c11: true, c13: false, c19: false });
+}
+fn f_c13(ctx: &mut Ctx) {
+    worlds::fworld::run(ctx, worlds::fworld::Which { c09: false, c11: false, c13: true, c19: false });
+}
+fn f_c19(ctx: &mut Ctx) {
+    worlds::fworld::run(ctx, worlds::fworld::Which { c09: false, c11: false, c13: false, c19: true });
+}
 fn c04_run(ctx: &mut Ctx) {
     worlds::h_traffic::run(ctx, worlds::h_traffic::Opts { c04: true, c13: false, c19: false, malicious: false });
 }
@@ -157,7 +170,7 @@ pub static C15: CheckSpec = CheckSpec {
 pub static C19: CheckSpec = CheckSpec {
     id: "C19",
     level: "exploration",
-    scenarios: &[Scenario { name: "handler-traffic", weight: 1, run: c19_run }],
+    scenarios: &[Scenario { name: "handler-traffic", weight: 4, run: c19_run }, Scenario { name: "full-stack", weight: 1, run: f_c19 }],
     runs_quick: 40_000,
     runs_thorough: 150_000,
     cap_quick_s: 75,
@@ -174,7 +187,7 @@ const STUB_SERVICE: &[&str] = &["the Handler (scripted by the harness through ho
 pub static C11: CheckSpec = CheckSpec {
     id: "C11",
     level: "exploration",
-    scenarios: &[Scenario { name: "nodes-validation", weight: 1, run: worlds::s_nodes::run_c11 }],
+    scenarios: &[Scenario { name: "nodes-validation", weight: 5, run: worlds::s_nodes::run_c11 }, Scenario { name: "full-stack", weight: 1, run: f_c11 }],
     runs_quick: 30_000,
     runs_thorough: 1_500_000,
     cap_quick_s: 75,
@@ -247,7 +260,7 @@ pub static C20: CheckSpec = CheckSpec {
 pub static C13: CheckSpec = CheckSpec {
     id: "C13",
     level: "exploration",
-    scenarios: &[Scenario { name: "handler-traffic", weight: 1, run: c13_run }],
+    scenarios: &[Scenario { name: "handler-traffic", weight: 4, run: c13_run }, Scenario { name: "full-stack", weight: 1, run: f_c13 }],
     runs_quick: 40_000,
     runs_thorough: 150_000,
     cap_quick_s: 75,
@@ -283,7 +296,7 @@ pub static C02: CheckSpec = CheckSpec {
     runs_thorough: 2 * worlds::h_tamper::ENUM_SPACE + 200_000,
     cap_quick_s: 75,
     cap_thorough_s: 1500,
-    rule: "enumerated half: 6 base exchanges (fresh recipient session, initiator with multi-packet NODES, record-less contact awaiting the record, re-key after session loss, simultaneous dial with a third node, NODES in 2 packets then reverse PING) x datagram index 0..9 x mutation index j (every single-bit flip, every truncation length, a 1-byte insertion at every offset; j beyond the datagram's length is an empty case that ends at once): 198000 cases, all executed by the thorough tier, a fixed-stride sample by the quick tier; exactly one genuine datagram is replaced by its mutation per run. explored half: tape-chosen base plus extra requests, 5-40 % of the datagrams mutated by bit flip / truncation / insertion / header-body splice with an earlier datagram / misdelivery / re-masking for another node / spoofed source, with jitter and duplicates, sometimes delivering the genuine datagram as well; non-trivial = at least one mutated datagram was delivered; distinct = distinct event-log hash",
+    rule: "enumerated half: 6 base exchanges (fresh recipient session, initiator with multi-packet NODES, record-less contact awaiting the record, re-key after session loss, simultaneous dial with a third node, NODES in 2 packets then reverse PING) x datagram index 0..9 x mutation index j (every single-bit flip, every truncation length, a 1-byte insertion at every offset, 1..8 junk bytes appended to the auth-data with the masked size field patched to cover them; j beyond that is an empty case that ends at once): 198480 cases, all executed by the thorough tier, a fixed-stride sample by the quick tier; exactly one genuine datagram is replaced by its mutation per run. explored half: tape-chosen base plus extra requests, 5-40 % of the datagrams mutated by bit flip / truncation / insertion / auth-data growth with patched size field / header-body splice with an earlier datagram / misdelivery / re-masking for another node / spoofed source, with jitter and duplicates, sometimes delivering the genuine datagram as well; non-trivial = at least one mutated datagram was delivered; distinct = distinct event-log hash",
     components_real: REAL_HANDLER,
     components_stub: STUB_HANDLER,
     assumptions: &["a delivered message is matched to its carrier by decrypting the receiver's genuine inbound datagrams with the sender's logged session keys (hook H6) and comparing the plaintext with the re-encoded delivered message", "duplicated or replayed genuine datagrams may be delivered again (the handler keeps no replay window and the property allows it)"],
@@ -300,7 +313,7 @@ pub static C03: CheckSpec = CheckSpec {
     runs_thorough: 2 * worlds::h_replay::ENUM_SPACE + 600_000,
     cap_quick_s: 75,
     cap_thorough_s: 1200,
-    rule: "enumerated half: for each of 6 base exchanges (X dials V with/without V knowing X's record, V dials X with/without record, re-key after session loss, simultaneous dial plus a third node) every recorded handshake/WHOAREYOU datagram (index 0..7) x every later point (after the 1st..12th emitted datagram, after all challenges expired, while a later exchange runs) x {original source, other address, towards another node} is re-injected, one per run: 2016 cases, all executed in both tiers (runs whose datagram index does not exist inject nothing and are trivial); explored half: tape-chosen base, 1-4 replays, jitter and duplicates, extra requests; non-trivial = a replay was injected; distinct = distinct event-log hash",
+    rule: "enumerated half: for each of 7 base exchanges (X dials V with/without V knowing X's record, V dials X with/without record, re-key after session loss, simultaneous dial plus a third node, X dials V with a record that advertises another address than it sends from) every recorded handshake/WHOAREYOU datagram (index 0..7) x every later point (after the 1st..12th emitted datagram, after all challenges expired, while a later exchange runs) x {original source, other address, towards another node} is re-injected, one per run: 2352 cases, all executed in both tiers (runs whose datagram index does not exist inject nothing and are trivial); explored half: tape-chosen base, 1-4 replays, jitter and duplicates, extra requests; non-trivial = a replay was injected; distinct = distinct event-log hash",
     components_real: REAL_HANDLER,
     components_stub: STUB_HANDLER,
     assumptions: &["a challenge's expiry is request_timeout after the WHOAREYOU or after the last delivered handshake that may have re-armed it (invalid-signature re-insert)", "the oracle trusts the crate's id-signature verification to attribute an accepted handshake to the challenge it answers"],
